@@ -7,3 +7,119 @@ from .. import schemabind as B, schemagen as G  # noqa
 # G.UNIONS[(cls, field)] = [class names]                   candidate classes of a union field
 # G.FIELD_POOL[(cls, field)] = [abstract values] | f(ver)  values of a field when the kind's pool does not fit
 # G.HOOKS[cls] = lambda gen, val, ver, depth: val          consistency between fields of a generated value
+
+# Attribute operations (Get Attributes, Get Attribute List, Modify / Set / Delete Attribute).
+#
+# Two payload classes have ONE constructor argument whose encoding depends on the KMIP version:
+#     GetAttributesRequestPayload.attribute_names      1.x Attribute Name text strings | 2.0 Attribute Reference enumerations
+#     GetAttributeListResponsePayload.attribute_names  (same)
+# The schema states the two shapes as two fields gated by version (attribute_names / attribute_references).  The
+# binding maps both onto the one argument: BUILD turns the 2.0 field's value into the names the caller passes, B.GET
+# computes the 2.0 field from the decoded object's public attribute_names.  The name <-> tag correspondence used is the
+# schema's own AttrRule table (SchemaBase.tla), not the library's conversion table.
+# (GetAttributesResponsePayload.attributes - Attribute structures under 1.x, one Attributes structure under 2.0 - is
+# kind "attrs".)
+
+from kmip.core import enums, objects  # noqa: E402
+from kmip.core.messages.payloads import get_attributes, get_attribute_list  # noqa: E402
+
+
+def _name_of_tag(tag):
+    """Attribute name of a Tags member per AttrRule."""
+    n = B.attr_name_by_tag(tag)
+    if n is None:
+        raise ValueError("no attribute with tag %s in AttrRule" % tag.name)
+    return n
+
+
+def _tags_of_names(names):
+    """Tags members of attribute names per AttrRule; names AttrRule does not know have no 2.0 enumeration form and
+    are left out of the view (a value that had them then fails the round trip comparison, as it should)."""
+    rules = B.S()["attr"]
+    out = [enums.Tags[rules[n]["t"]] for n in (names or []) if n in rules]
+    return out or None
+
+
+def _names_build(pyc):
+    def build(kwargs, val):
+        refs = kwargs.pop("attribute_references", None)
+        if refs is not None:
+            kwargs["attribute_names"] = [_name_of_tag(t) for t in refs]
+        return pyc(**kwargs)
+    return build
+
+
+B.GET[("GetAttributesRequestPayload", "attribute_references")] = lambda o: _tags_of_names(o.attribute_names)
+B.GET[("GetAttributeListResponsePayload", "attribute_references")] = lambda o: _tags_of_names(o.attribute_names)
+B.BUILD["GetAttributesRequestPayload"] = _names_build(get_attributes.GetAttributesRequestPayload)
+B.BUILD["GetAttributeListResponsePayload"] = _names_build(get_attribute_list.GetAttributeListResponsePayload)
+
+
+# --- generator -----------------------------------------------------------------
+
+def _std_names(ver):
+    return sorted(n for n, r in B.S()["attr"].items() if r["lo"] <= ver <= r["hi"])
+
+
+def _name_pool(ver):
+    """1.x attribute names: the standard names of the version, custom names, boundary text."""
+    names = _std_names(ver) + ["x-custom", "y-Vendor Attribute", "x-" + "n" * 30, "", "a", "é", "日本語"]
+    return [list(n.encode("utf-8")) for n in names]
+
+
+def _ref_pool(ver):
+    """2.0 attribute references (enumeration form): the tags of the standard attributes of the version."""
+    tags = B.S()["tag"]
+    return [G.num(tags[B.S()["attr"][n]["t"]]) for n in _std_names(ver)]
+
+
+def _distinct(v, field):
+    # "the same Attribute Name SHALL NOT be present more than once in a request" (and the library's setter drops
+    # duplicates): generated lists have distinct elements
+    if field in v:
+        seen, out = set(), []
+        for e in v[field]:
+            k = repr(e)
+            if k not in seen:
+                seen.add(k)
+                out.append(e)
+        v[field] = out
+    return v
+
+
+def _names_hook(g, v, ver, depth):
+    return _distinct(_distinct(v, "attribute_names"), "attribute_references")
+
+
+for _c in ("GetAttributesRequestPayload", "GetAttributeListResponsePayload"):
+    G.FIELD_POOL[(_c, "attribute_names")] = _name_pool
+    G.FIELD_POOL[(_c, "attribute_references")] = _ref_pool
+    G.HOOKS[_c] = _names_hook
+
+
+# --- GetAttributesResponsePayload ---------------------------------------------------
+
+def _get_attributes_response_hook(g, v, ver, depth):
+    # KMIP 2.0: the library cannot encode the payload with an empty attribute list (known, pinned by a unit test of the
+    # library); the list is generated with at least one attribute
+    if ver >= 20 and not v.get("attributes"):
+        v["attributes"] = [g.attribute(ver, depth, index=False) for _ in range(g.r.randrange(1, 4))]
+    return v
+
+
+G.HOOKS["GetAttributesResponsePayload"] = _get_attributes_response_hook
+
+
+# --- DeleteAttributeRequestPayload ----------------------------------------------------
+
+def _delete_attribute_request_hook(g, v, ver, depth):
+    # KMIP 2.0: Current Attribute or Attribute Reference identifies the attribute to delete; one of them is present
+    if ver >= 20 and "current_attribute" not in v and "attribute_reference" not in v:
+        c, n = g.r.choice([("CurrentAttribute", "current_attribute"), ("AttributeReference", "attribute_reference")])
+        v[n] = g.obj(c, ver, depth + 1)
+    return v
+
+
+G.HOOKS["DeleteAttributeRequestPayload"] = _delete_attribute_request_hook
+G.FIELD_POOL[("DeleteAttributeRequestPayload", "attribute_name")] = _name_pool
+G.FIELD_POOL[("DeleteAttributeRequestPayload", "attribute_index")] = [G.num(x) for x in (0, 1, 2, 7, 255, 2 ** 31 - 1)]
